@@ -57,6 +57,8 @@ func checkC13(w *World, c *Check, tier string) {
 	c.floor("C13.guard", 6)
 	c.floor("C13.field", 6)
 	c.floor("C13.eq", 6)
+	c.floor("C13.accessor", 28)
+	checkAccessors(w, c, "C13.accessor", []string{"GetType", "GetLink"})
 	pr := newProver(w)
 	itemsEqual := w.Func("ItemsEqual")
 	iriEquals := w.Method("IRI", "Equals")
